@@ -8,10 +8,12 @@ TB = ("Trusted: Lean 4.33 kernel + axioms {propext, Classical.choice, Quot.sound
 
 P = {
  "C01": ("Theorems over the builder/CSR model for all operation histories (prefix-stable numbering, nodup, number_iff, row slice = the user's records, row pointers, "
-         "new-record denotation); the model is tied to the code by a differential run of generated builder histories with every view decoded and compared.",
+         "new-record denotation, filters only remove / time-window spec, no (user, item) pair stored twice); the model is tied to the code by a differential run of generated "
+         "builder histories with every view (record table, SciPy/torch CSR+COO, CSR/COO structure incl. nnz and shape, rows by id and by number, stats) decoded and compared.",
          "Arrow/SciPy/torch constructors are assumed to honour the arrays they are given; attribute values are opaque payloads.",
          "Lean theorems (induction over op lists) + model/impl differential on builder histories", "5/C01"),
- "C02": ("run = denotation for every ranked (acyclic) graph, inputs and request list (run_eq_denote, ≈1000 lines), at-most-once and needed-only execution for arbitrary graphs; "
+ "C02": ("run = denotation for every ranked (acyclic) graph, inputs and request list (run_eq_denote, ≈1000 lines); the builder's validate is modelled and proved to yield such a rank (validated_run_eq_denote) "
+         "and to reject every cyclic wiring; default-connection resolution theorems; at-most-once and needed-only execution for arbitrary graphs; "
          "tied to PipelineRunner by a differential over generated DAGs (values, error classes, execution log order).",
          "Component behaviour comes from a closed DSL shared by model and harness; Python-level type checking is abstracted to accepts/acceptsNone.",
          "Lean refinement proof (memoised runner = denotational evaluator) + differential on generated DAGs", "5/C02"),
@@ -23,11 +25,11 @@ P = {
          "is measured metamorphically (singleton-call table vs list call) — correspondence, not theorem.",
          "Scorer internals (torch modules, BLAS) are opaque tables; cross-list float comparison within tolerance.",
          "Lean theorem on the scatter idiom + model-mediated metamorphic run over shipped scorers", "5/C04"),
- "C05": ("array_split partition, make-pair partition, user-split exactness/no-leak, LastN spec, temporal partition and tz-independence of conformed cut-offs proved for all inputs and all "
+ "C05": ("array_split partition, make-pair partition, user-split exactness/no-leak, LastN spec, temporal partition / windows of a cut sequence and zone-independence of the conversion of every cut-off and end bound proved for all inputs and all "
          "permutations; differential against every splitter and holdout incl. fallback paths.",
          "pandas/Arrow filter primitives assumed; random choices enter as universally quantified parameters (scripted RNG at run time).",
          "Lean theorems (perm/partition inductions) + differential with scripted generator", "5/C05"),
- "C06": ("Bounds, ideal = 1, swap monotonicity (incl. rearrangement argument for graded nDCG) proved over Rat for all lists/truths/cut-offs with an abstract non-decreasing discount; "
+ "C06": ("Bounds, ideal = 1, swap monotonicity (incl. rearrangement argument for graded nDCG), MeanPopRank range / unknown-item clauses proved over Rat for all lists/truths/cut-offs with an abstract non-decreasing discount; "
          "code-shaped metric model compared with measure_list on generated cases to 1e-12.",
          "float evaluation within tolerance; log2 discount enters as a table of the float values NumPy produced.",
          "Lean theorems over Rat + exact-rational differential of ten list metrics", "5/C06"),
@@ -55,22 +57,22 @@ P = {
  "C13": ("Configuration round trip under WFcfg, injectivity of the canonical JSON tree, order independence of aliases/edges proved; model text compared byte-for-byte with pydantic's and SHA-256 with config_hash, producers re-run under several PYTHONHASHSEEDs.",
          "pydantic's JSON writer and SHA-256 assumed; render injectivity on trees assumed.",
          "Lean theorems on config model + byte-level differential of canonical text", "5/C13"),
- "C14": ("Separation invariant over all operation histories of the heap model (built pipelines unaffected by any later operation on derived builders); the copy discipline of the code is measured by a heap-shape abstraction (shared mutable containers) and fingerprints after every op.",
+ "C14": ("Separation invariant over all operation histories of the heap model (built objects unaffected by any later operation on derived builders); every generated pipeline and dataset-schema history also drives the Lean heap model (op c14.run) and the wiring / schema dictionaries of all objects are compared after every operation; heap-shape abstraction and fingerprints in addition.",
          "The heap model's copy discipline is the code's only as far as the heap-shape probe measures it.",
          "Lean invariant proof on heap model + heap-shape / fingerprint histories on real objects", "5/C14"),
- "C15": ("Every crash prefix of the save sequence (any deletion order, clean or torn write) loads as fail/new/old, never a mixture — proved without side hypotheses; fault injection on the real save at every step compared with the model; round trips measured.",
+ "C15": ("Every crash prefix of the save sequence (any deletion order, clean or torn write) loads as fail/new/old, never a mixture — proved without side hypotheses; fault injection at the file-system primitives on the real save at every step compared with the model; ItemList pickling modelled with round-trip theorems and the pickled state compared; the other round trips measured.",
          "Parquet/pickle codecs assumed injective with non-decoding truncations; a completed rmtree/write is durable.",
          "Lean theorem over all crash points + exhaustive fault injection on the real save", "5/C15"),
- "C16": ("Alignment invariant and selection/caching/alternate-vocabulary specs proved for the item-list model; differential over operation histories observing every list created.",
+ "C16": ("Alignment invariant and selection/caching/alternate-vocabulary/copy-constructor/ranks-cache specs proved for the item-list model; differential over operation histories (incl. copies with replaced identifiers, numbers, vocabulary, fields).",
          "NumPy/torch/Arrow conversions assumed.",
          "Lean invariant proof + differential on operation histories", "5/C16"),
- "C17": ("Read-back theorem for scalar (repaired algorithm; partial theorem for the mask-order fill) and list layouts for all subsets/orders; differential on add/read of attributes.",
+ "C17": ("Read-back theorems for the scalar, list, dense-vector and sparse-vector layouts (incl. sliced Arrow inputs) for all subsets/orders; differential on add/read of attributes through every input and read form, selections and drop_null.",
          "Arrow list/struct constructors assumed.",
          "Lean theorems + differential on attribute add/read", "5/C17"),
  "C18": ("Guard logic (skip = identity), retrain = fresh, once-only training and distinct seeds proved on the training model; full-state comparison of retrained vs fresh real components is correspondence.",
          "The model knows learned attributes by name only; state comparison excludes timers.",
          "Lean theorems on train guard/loop + state-snapshot differential on real components", "5/C18"),
- "C19": ("PARTIAL (distribution): validity (subset, nodup, length, order), weight normalisation, run-time n precedence proved for all random inputs; exact ranking predicted from scripted uniforms; first-position odds tested statistically (thorough).",
+ "C19": ("PARTIAL (distribution): validity (subset, nodup, length, order), weight normalisation, run-time n precedence proved for all random inputs; the analytic core of the first-position odds (exponential clocks: w/W) proved with Mathlib, the link to NumPy's draws assumed; exact ranking predicted from scripted uniforms; first-position odds tested statistically (thorough).",
          "Sampler distribution (exponential clocks / uniform subset) assumed, tested statistically.",
          "Lean theorems + scripted-RNG differential (+ statistical test)", "5/C19"),
  "C20": ("verified-or-warned by induction on attempts, pairing injective, columns valid, every eligible column reachable — for all draw streams; scripted-RNG differential predicts exact columns and warnings.",
